@@ -53,6 +53,54 @@ func yieldStmt(fset *token.FileSet, pos token.Pos) ast.Stmt {
 	}}
 }
 
+// rewriteSelect wraps the channel of every communication of a select statement in
+// vsched.SelRecv / vsched.SelSend (id of the statement, index of the communication), so that the
+// replay can disable the cases the model did not choose.
+func rewriteSelect(fset *token.FileSet, sel *ast.SelectStmt) {
+	p := fset.Position(sel.Pos())
+	id := fmt.Sprintf("%s:%d:%d", p.Filename, p.Line, p.Column)
+	wrap := func(fn string, i int, ch ast.Expr) ast.Expr {
+		return &ast.CallExpr{
+			Fun: &ast.SelectorExpr{X: ast.NewIdent("vsched"), Sel: ast.NewIdent(fn)},
+			Args: []ast.Expr{
+				&ast.BasicLit{Kind: token.STRING, Value: strconv.Quote(id)},
+				&ast.BasicLit{Kind: token.INT, Value: strconv.Itoa(i)},
+				ch,
+			},
+		}
+	}
+	recv := func(e ast.Expr, i int) {
+		for {
+			if pe, ok := e.(*ast.ParenExpr); ok {
+				e = pe.X
+				continue
+			}
+			break
+		}
+		if ue, ok := e.(*ast.UnaryExpr); ok && ue.Op == token.ARROW {
+			ue.X = wrap("SelRecv", i, ue.X)
+		}
+	}
+	i := 0
+	for _, c := range sel.Body.List {
+		cc, ok := c.(*ast.CommClause)
+		if !ok || cc.Comm == nil {
+			continue
+		}
+		switch st := cc.Comm.(type) {
+		case *ast.SendStmt:
+			st.Chan = wrap("SelSend", i, st.Chan)
+		case *ast.ExprStmt:
+			recv(st.X, i)
+		case *ast.AssignStmt:
+			if len(st.Rhs) == 1 {
+				recv(st.Rhs[0], i)
+			}
+		}
+		i++
+	}
+}
+
 func rewriteGo(fset *token.FileSet, g *ast.GoStmt, n *int) ast.Stmt {
 	p := fset.Position(g.Pos())
 	site := fmt.Sprintf("%s:%d", p.Filename, p.Line)
@@ -152,6 +200,8 @@ func instrList(fset *token.FileSet, list []ast.Stmt, n *int) []ast.Stmt {
 					}
 				}
 			}
+		case *ast.SelectStmt:
+			rewriteSelect(fset, x)
 		case *ast.AssignStmt:
 			// X = f(...): the store happens after the call returns; give it its own yield
 			if x.Tok == token.ASSIGN && len(x.Rhs) == 1 {
